@@ -84,7 +84,7 @@ def check_pair(tbl, op, va, ua, vb, ub, r1, r2):
 
 def run(chk):
     binary, tbl = qtylib.session()
-    proved = chk.prove("Props.C12", THEOREMS, ["theories/Props/C12.vo", "theories/Qty/Prelude.vo"],
+    proved = chk.prove("Props.C12", THEOREMS, ["theories/Props/C12.vo", "theories/Qty/Prelude.vo", "theories/Props/C12F.vo", "theories/Qty/PreludeF.vo"],
                        extra_obligations=["Qty.Prelude.prelude_wf", "Qty.Prelude.prelude_exact_int",
                                           "Qty.Prelude.prelude_exact_pos"])
     chk.trusted += [
